@@ -222,6 +222,40 @@ def harness_index():
     return idx
 
 
+def gen_completion_tables(ws):
+    """run the REAL Analysis::completion natively (four contexts) and compile the offered
+    labels into the syntax-crate harness as constants (module verif_completion_gen)"""
+    binp = build_native(ws)
+    r = subprocess.run([binp, "completion-dump"], stdout=subprocess.PIPE, stderr=subprocess.PIPE, timeout=120)
+    if r.returncode != 0:
+        raise Inconclusive("completion-dump failed: " + r.stderr.decode("utf-8", "replace")[-500:])
+    d = json.loads(r.stdout.decode())
+    strip = lambda xs: sorted({x.split(":", 1)[1] for x in xs})
+    bang = sorted(set(strip(d["bang"])) - set(strip(d["bang_base"])))
+    tables = {"BANG": bang, "TOPLEVEL": strip(d["toplevel"]), "TYPES": strip(d["type"]),
+              "VALUES": strip(d["value"])}
+    kf = load_known_findings()
+    for f in kf.get("findings", []):
+        if f["id"] in ("C20_BANG_OFFERED_NOT_LEXED", "C20_BANG_LEXED_NOT_OFFERED"):
+            tables["KF_" + f["id"]] = sorted(f.get("inputs", []))
+    for k in ("KF_C20_BANG_OFFERED_NOT_LEXED", "KF_C20_BANG_LEXED_NOT_OFFERED"):
+        tables.setdefault(k, [])
+    lines = ["// generated at run time from the real Analysis::completion + known_findings.json",
+             "#![allow(dead_code)]"]
+    for k, v in tables.items():
+        items = ", ".join('b"%s"' % x.replace("\\", "\\\\").replace('"', '\\"') for x in v)
+        lines.append(f"pub const {k}: &[&[u8]] = &[{items}];")
+        pats = " | ".join('b"%s"' % x for x in v) or 'b"\\x00never"'
+        lines.append(f"pub fn in_{k.lower()}(w: &[u8]) -> bool {{ matches!(w, {pats}) }}")
+    hdir = os.path.join(ws, "verif_h")
+    os.makedirs(hdir, exist_ok=True)
+    dst = os.path.join(hdir, "completion_gen.rs")
+    open(dst, "w").write("\n".join(lines) + "\n")
+    with open(os.path.join(ws, "crates/syntax/src/lib.rs"), "a") as f:
+        f.write(f'\n#[cfg(kani)]\n#[path = "{dst}"]\npub(crate) mod verif_completion_gen;\n')
+    return tables
+
+
 def assemble(ws, crates):
     listed = set()
     for crate in crates:
@@ -543,6 +577,19 @@ def check(prop, tier, only=None, seed=0):
     notes = []
     try:
         listed = assemble(ws, crates)
+        gen = None
+        if "syntax" in crates:
+            if any(h.get("needs_completion") for h in plan):
+                gen = gen_completion_tables(ws)
+            else:
+                hdir = os.path.join(ws, "verif_h")
+                dst = os.path.join(hdir, "completion_gen.rs")
+                open(dst, "w").write("".join(
+                    f"pub const {k}: &[&[u8]] = &[];\npub fn in_{k.lower()}(_w: &[u8]) -> bool {{ false }}\n" for k in (
+                    "BANG", "TOPLEVEL", "TYPES", "VALUES", "KF_C20_BANG_OFFERED_NOT_LEXED",
+                    "KF_C20_BANG_LEXED_NOT_OFFERED")))
+                with open(os.path.join(ws, "crates/syntax/src/lib.rs"), "a") as f:
+                    f.write(f'\n#[cfg(kani)]\n#[allow(dead_code)]\n#[path = "{dst}"]\npub(crate) mod verif_completion_gen;\n')
         import random
         rnd = random.Random(seed)
         rnd.shuffle(plan)
